@@ -103,8 +103,8 @@ MALFORMED = [
 def gen(ctx):
     rng = ctx.rng('gen')
     quick = ctx.tier == 'quick'
-    n_conv = 1500 if quick else 40000
-    n_num = 3000 if quick else 150000
+    n_conv = 1500 if quick else 300000
+    n_num = 3000 if quick else 1000000
     shard, nsh = ctx.shard, ctx.nshards
     # malformed strings (every shard its slice)
     for i, s in enumerate(MALFORMED):
